@@ -260,15 +260,6 @@ func (c *genCtx) gen(depth int, nn, incap bool) *Expr {
 					o.Style = c.draw(0, 5, "modwrapstyle2")
 					return o
 				}
-			case 3:
-				if !incap {
-					// a capture right in front of a bracket group, with a modifier behind it: @{ x }? , ( @[ x ] )!
-					in2 := Group(outer.Mod, c.leaf())
-					in2.Style = 1
-					o := Group(rapid.SampledFrom([]string{"?", "!"}).Draw(c.t, "capbracketmod"), Cap(in2))
-					o.Style = 2 + c.draw(0, 1, "capbracketstyle")
-					return o
-				}
 			case 2:
 				if c.o.WildLits && !c.o.NoLookNeg && !incap {
 					// ... behind a negation: ( ~( x+ ) )*
